@@ -2,96 +2,90 @@ import Hls.MvGen.Model
 import Mathlib.Tactic.Ring
 import Mathlib.Tactic.Linarith
 /-!
-# bandwidth(): loop invariants (mediant inequality on floor divisions, exactness, panic condition)
+# bandwidth(): loop invariants (mediant inequality on floor divisions, exactness), the two guards of
+the F13 repair (`bandwidthWith`), and the panic condition of the legacy code
 -/
 namespace Hls.MvGen
 
-/-- what the loop returns, in terms of the specification functions -/
-theorem bwLoop_ok {segs : List Seg} : ∀ {mx sz du mx' sz' du' : Nat},
-    bwLoop segs mx sz du = .ok (mx', sz', du') →
-    mx' = (rates segs).foldl (fun a b => if b > a then b else a) mx ∧
-    sz' = sz + totalSize segs ∧ du' = du + totalDur segs ∧
-    (∀ size dur, Seg.seg size dur ∈ segs → 0 < dur) := by
-  induction segs with
-  | nil =>
-    intro mx sz du mx' sz' du' h
-    simp [bwLoop] at h
-    obtain ⟨rfl, rfl, rfl⟩ := h
-    simp [rates, totalSize, totalDur]
-  | cons s rest ih =>
-    intro mx sz du mx' sz' du' h
-    cases s with
-    | gap d =>
-      simp only [bwLoop] at h
-      obtain ⟨h1, h2, h3, h4⟩ := ih h
-      refine ⟨by simpa [rates] using h1, by simpa [totalSize] using h2, by simpa [totalDur] using h3, ?_⟩
-      intro size dur hm
-      simp at hm
-      exact h4 size dur hm
-    | seg size dur =>
-      simp only [bwLoop] at h
-      by_cases hd : dur = 0
-      · simp [hd] at h
-      · simp only [hd, ↓reduceIte] at h
-        obtain ⟨h1, h2, h3, h4⟩ := ih h
-        refine ⟨by simpa [rates] using h1, by simp [totalSize]; omega, by simp [totalDur]; omega, ?_⟩
-        intro size' dur' hm
-        simp at hm
-        rcases hm with ⟨rfl, rfl⟩ | hm
-        · omega
-        · exact h4 size' dur' hm
+/-! ## `timed` -/
 
-/-- the loop fails exactly on a listed zero duration -/
-theorem bwLoop_error_iff (segs : List Seg) : ∀ (mx sz du : Nat),
-    (∃ e, bwLoop segs mx sz du = .error e) ↔ ∃ size, Seg.seg size 0 ∈ segs := by
+theorem mem_timed {segs : List Seg} {size dur : Nat} :
+    Seg.seg size dur ∈ timed segs ↔ Seg.seg size dur ∈ segs ∧ dur ≠ 0 := by
   induction segs with
-  | nil => intro mx sz du; simp [bwLoop]
+  | nil => simp [timed]
+  | cons s rest ih =>
+    cases s with
+    | gap d => simp [timed, ih]
+    | seg a b =>
+      by_cases hb : b = 0
+      · subst hb
+        simp only [timed, ↓reduceIte, ih, List.mem_cons, Seg.seg.injEq]
+        constructor
+        · rintro ⟨h1, h2⟩; exact ⟨Or.inr h1, h2⟩
+        · rintro ⟨(⟨_, h0⟩ | h1), h2⟩
+          · exact absurd h0 h2
+          · exact ⟨h1, h2⟩
+      · simp only [timed, hb, ↓reduceIte, List.mem_cons, Seg.seg.injEq, ih]
+        constructor
+        · rintro (⟨rfl, rfl⟩ | ⟨h1, h2⟩)
+          · exact ⟨Or.inl ⟨rfl, rfl⟩, hb⟩
+          · exact ⟨Or.inr h1, h2⟩
+        · rintro ⟨(⟨rfl, rfl⟩ | h1), h2⟩
+          · exact Or.inl ⟨rfl, rfl⟩
+          · exact Or.inr ⟨h1, h2⟩
+
+/-- without a zero-duration segment nothing is left out -/
+theorem timed_eq_self {segs : List Seg} (h : ∀ size, Seg.seg size 0 ∉ segs) : timed segs = segs := by
+  induction segs with
+  | nil => rfl
+  | cons s rest ih =>
+    have hrest : ∀ size, Seg.seg size 0 ∉ rest := fun size hm => h size (List.mem_cons_of_mem _ hm)
+    cases s with
+    | gap d => simp [timed, ih hrest]
+    | seg a b =>
+      have hb : b ≠ 0 := by
+        intro hb; subst hb; exact h a List.mem_cons_self
+      simp [timed, hb, ih hrest]
+
+theorem timed_idem (segs : List Seg) : timed (timed segs) = timed segs :=
+  timed_eq_self (fun _ hm => (mem_timed.mp hm).2 rfl)
+
+/-! ## the fixed loop -/
+
+/-- what the loop returns, in terms of the specification functions over the timed segments -/
+theorem bwLoop_spec (segs : List Seg) : ∀ (mx sz du : Nat),
+    bwLoop segs mx sz du =
+      ((rates (timed segs)).foldl (fun a b => if b > a then b else a) mx,
+       sz + totalSize (timed segs), du + totalDur (timed segs)) := by
+  induction segs with
+  | nil => intro mx sz du; simp [bwLoop, timed, rates, totalSize, totalDur]
   | cons s rest ih =>
     intro mx sz du
     cases s with
-    | gap d =>
-      simp only [bwLoop]
-      rw [ih]
-      simp
+    | gap d => simp only [bwLoop, timed, rates, totalSize, totalDur]; exact ih mx sz du
     | seg size dur =>
-      simp only [bwLoop]
       by_cases hd : dur = 0
-      · subst hd
-        simp
-        exact ⟨.divideByZero⟩
-      · simp only [hd, ↓reduceIte]
+      · simp only [bwLoop, timed, hd, ↓reduceIte]; exact ih mx sz du
+      · simp only [bwLoop, timed, hd, ↓reduceIte, rates, totalSize, totalDur, List.foldl_cons]
         rw [ih]
-        constructor
-        · rintro ⟨s', h⟩; exact ⟨s', by simp [h]⟩
-        · rintro ⟨s', h⟩
-          simp at h
-          rcases h with ⟨_, h0⟩ | h
-          · exact absurd h0.symm hd
-          · exact ⟨s', h⟩
+        simp only [Nat.add_assoc]
 
 /-- mediant step: the running maximum bounds the running mean from above -/
-theorem bwLoop_mediant {segs : List Seg} : ∀ {mx sz du mx' sz' du' : Nat},
-    bwLoop segs mx sz du = .ok (mx', sz', du') →
+theorem bwLoop_mediant (segs : List Seg) : ∀ (mx sz du : Nat),
     (8 * sz * nsPerSec < (mx + 1) * du ∨ (du = 0 ∧ sz = 0)) →
-    (8 * sz' * nsPerSec < (mx' + 1) * du' ∨ (du' = 0 ∧ sz' = 0)) := by
+    (8 * (bwLoop segs mx sz du).2.1 * nsPerSec < ((bwLoop segs mx sz du).1 + 1) * (bwLoop segs mx sz du).2.2 ∨
+      ((bwLoop segs mx sz du).2.2 = 0 ∧ (bwLoop segs mx sz du).2.1 = 0)) := by
   induction segs with
-  | nil =>
-    intro mx sz du mx' sz' du' h hi
-    simp [bwLoop] at h
-    obtain ⟨rfl, rfl, rfl⟩ := h
-    exact hi
+  | nil => intro mx sz du hi; simpa [bwLoop] using hi
   | cons s rest ih =>
-    intro mx sz du mx' sz' du' h hi
+    intro mx sz du hi
     cases s with
-    | gap d =>
-      simp only [bwLoop] at h
-      exact ih h hi
+    | gap d => simp only [bwLoop]; exact ih mx sz du hi
     | seg size dur =>
-      simp only [bwLoop] at h
       by_cases hd : dur = 0
-      · simp [hd] at h
-      · simp only [hd, ↓reduceIte] at h
-        apply ih h
+      · simp only [bwLoop, hd, ↓reduceIte]; exact ih mx sz du hi
+      · simp only [bwLoop, hd, ↓reduceIte]
+        apply ih
         left
         have hdpos : 0 < dur := Nat.pos_of_ne_zero hd
         -- 8*size*E < (bw+1)*dur
@@ -117,6 +111,111 @@ theorem bwLoop_mediant {segs : List Seg} : ∀ {mx sz du mx' sz' du' : Nat},
           · subst h0; subst h0'
             have e : (mx + 1) * (0 + dur) = dur * (mx + 1) := by ring
             omega
+
+/-- `bandwidth` in terms of its loop, without the case split on the empty list -/
+theorem bandwidth_eq (segs : List Seg) :
+    bandwidth segs =
+      ((bwLoop segs 0 0 0).1,
+       if (bwLoop segs 0 0 0).2.2 = 0 then 0
+       else 8 * (bwLoop segs 0 0 0).2.1 * nsPerSec / (bwLoop segs 0 0 0).2.2) := by
+  cases segs with
+  | nil => simp [bandwidth, bwLoop]
+  | cons s rest =>
+    simp only [bandwidth]
+    split <;> simp_all
+
+/-! ## the two guards (`bandwidthWith`) -/
+
+/-- with the zero-duration conjunct the loop cannot fail and is the fixed loop -/
+theorem bwLoopWith_true (segs : List Seg) : ∀ (mx sz du : Nat),
+    bwLoopWith true segs mx sz du = .ok (bwLoop segs mx sz du) := by
+  induction segs with
+  | nil => intro mx sz du; rfl
+  | cons s rest ih =>
+    intro mx sz du
+    cases s with
+    | gap d => simp only [bwLoopWith, bwLoop]; exact ih mx sz du
+    | seg size dur =>
+      by_cases hd : dur = 0
+      · simp only [bwLoopWith, bwLoop, hd, ↓reduceIte]; exact ih mx sz du
+      · simp only [bwLoopWith, bwLoop, hd, ↓reduceIte]; exact ih _ _ _
+
+/-- whatever guards are present: a loop that returns, returns what the fixed loop returns -/
+theorem bwLoopWith_ok {skip : Bool} {segs : List Seg} : ∀ {mx sz du : Nat} {r : Nat × Nat × Nat},
+    bwLoopWith skip segs mx sz du = .ok r → bwLoop segs mx sz du = r := by
+  induction segs with
+  | nil => intro mx sz du r h; simpa [bwLoopWith, bwLoop] using h
+  | cons s rest ih =>
+    intro mx sz du r h
+    cases s with
+    | gap d => simp only [bwLoopWith] at h; simp only [bwLoop]; exact ih h
+    | seg size dur =>
+      by_cases hd : dur = 0
+      · simp only [bwLoopWith, hd, ↓reduceIte] at h
+        cases skip with
+        | true => simp only [↓reduceIte] at h; simp only [bwLoop, hd, ↓reduceIte]; exact ih h
+        | false => simp at h
+      · simp only [bwLoopWith, hd, ↓reduceIte] at h
+        simp only [bwLoop, hd, ↓reduceIte]; exact ih h
+
+/-- both guards present = the fixed code, which always returns -/
+theorem bandwidthWith_fixed (segs : List Seg) : bandwidthWith true true segs = .ok (bandwidth segs) := by
+  cases segs with
+  | nil => rfl
+  | cons s rest =>
+    simp only [bandwidthWith, bwLoopWith_true, bandwidth]
+    split <;> rfl
+
+/-- the repair is conservative: whenever `bandwidth()` returned (with or without either guard) it
+returned what the fixed code returns -/
+theorem bandwidthWith_ok {skip guard : Bool} {segs : List Seg} {r : Nat × Nat}
+    (h : bandwidthWith skip guard segs = .ok r) : bandwidth segs = r := by
+  cases segs with
+  | nil => simpa [bandwidthWith, bandwidth] using h
+  | cons s rest =>
+    simp only [bandwidthWith] at h
+    cases hl : bwLoopWith skip (s :: rest) 0 0 0 with
+    | error e => simp [hl] at h
+    | ok r' =>
+      obtain ⟨mx, sz, du⟩ := r'
+      have hfix := bwLoopWith_ok hl
+      simp only [hl] at h
+      simp only [bandwidth, hfix]
+      by_cases hdu : du = 0
+      · simp only [hdu, ↓reduceIte] at h ⊢
+        cases guard with
+        | true => simpa using h
+        | false => simp at h
+      · simp only [hdu, ↓reduceIte] at h ⊢
+        simpa using h
+
+/-- without the zero-duration conjunct the loop fails exactly on a listed zero duration -/
+theorem bwLoopWith_false_error_iff (segs : List Seg) : ∀ (mx sz du : Nat),
+    (∃ e, bwLoopWith false segs mx sz du = .error e) ↔ ∃ size, Seg.seg size 0 ∈ segs := by
+  induction segs with
+  | nil => intro mx sz du; simp [bwLoopWith]
+  | cons s rest ih =>
+    intro mx sz du
+    cases s with
+    | gap d =>
+      simp only [bwLoopWith]
+      rw [ih]
+      simp
+    | seg size dur =>
+      simp only [bwLoopWith]
+      by_cases hd : dur = 0
+      · subst hd
+        simp
+        exact ⟨.divideByZero⟩
+      · simp only [hd, ↓reduceIte]
+        rw [ih]
+        constructor
+        · rintro ⟨s', h⟩; exact ⟨s', by simp [h]⟩
+        · rintro ⟨s', h⟩
+          simp at h
+          rcases h with ⟨_, h0⟩ | h
+          · exact absurd h0.symm hd
+          · exact ⟨s', h⟩
 
 theorem totalDur_le_of_guard (segs : List Seg)
     (hg : ∀ size dur, Seg.seg size dur ∈ segs → dur ≤ 8 * size * nsPerSec) :
@@ -161,5 +260,79 @@ theorem totalDur_pos_of_mem (segs : List Seg) (hpos : ∀ size dur, Seg.seg size
       cases x with
       | gap d => simp only [totalDur]; exact this
       | seg a b => simp only [totalDur]; omega
+
+/-- the timed segments carry time iff some listed segment has a positive duration -/
+theorem totalDur_timed_pos_iff (segs : List Seg) :
+    0 < totalDur (timed segs) ↔ ∃ size dur, Seg.seg size dur ∈ segs ∧ 0 < dur := by
+  constructor
+  · intro hpos
+    have hall : ∀ size dur, Seg.seg size dur ∈ timed segs → 0 < dur :=
+      fun size dur hm => Nat.pos_of_ne_zero (mem_timed.mp hm).2
+    obtain ⟨a, b, hm⟩ := exists_seg_of_totalDur_pos _ hpos
+    exact ⟨a, b, (mem_timed.mp hm).1, hall a b hm⟩
+  · rintro ⟨a, b, hm, hb⟩
+    have hall : ∀ size dur, Seg.seg size dur ∈ timed segs → 0 < dur :=
+      fun size dur hm => Nat.pos_of_ne_zero (mem_timed.mp hm).2
+    exact totalDur_pos_of_mem _ hall (mem_timed.mpr ⟨hm, by omega⟩)
+
+/-- no time listed ⇒ no rate listed -/
+theorem rates_timed_of_totalDur_zero (segs : List Seg) (h : totalDur (timed segs) = 0) :
+    rates (timed segs) = [] := by
+  induction segs with
+  | nil => rfl
+  | cons x xs ih =>
+    cases x with
+    | gap d => simp only [timed, totalDur] at h; simp only [timed, rates]; exact ih h
+    | seg a b =>
+      by_cases hb : b = 0
+      · simp only [timed, hb, ↓reduceIte] at h ⊢; exact ih h
+      · simp only [timed, hb, ↓reduceIte, totalDur] at h; omega
+
+/-- the legacy `bandwidth()` panics iff the list is non-empty and lists a zero-duration segment or no
+segment at all -/
+theorem bandwidthLegacy_error_iff (segs : List Seg) :
+    (∃ e, bandwidthLegacy segs = .error e) ↔
+      (segs ≠ [] ∧ ((∃ size, Seg.seg size 0 ∈ segs) ∨ ∀ size dur, Seg.seg size dur ∉ segs)) := by
+  cases segs with
+  | nil => simp [bandwidthLegacy, bandwidthWith]
+  | cons s rest =>
+    simp only [bandwidthLegacy, bandwidthWith, ne_eq, reduceCtorEq, not_false_eq_true, true_and]
+    cases hl : bwLoopWith false (s :: rest) 0 0 0 with
+    | error e =>
+      have := (bwLoopWith_false_error_iff (s :: rest) 0 0 0).mp ⟨e, hl⟩
+      exact ⟨fun _ => Or.inl this, fun _ => ⟨e, rfl⟩⟩
+    | ok r =>
+      obtain ⟨mx, sz, du⟩ := r
+      have hno : ¬ ∃ size, Seg.seg size 0 ∈ (s :: rest) := by
+        intro hex
+        obtain ⟨e, he⟩ := (bwLoopWith_false_error_iff (s :: rest) 0 0 0).mpr hex
+        rw [hl] at he; cases he
+      have hself : timed (s :: rest) = s :: rest := timed_eq_self (fun size hm => hno ⟨size, hm⟩)
+      have hfix := bwLoopWith_ok hl
+      rw [bwLoop_spec, hself] at hfix
+      have hdu : du = totalDur (s :: rest) := by
+        have := congrArg (fun r => r.2.2) hfix
+        simp only [Nat.zero_add] at this
+        exact this.symm
+      have hpos : ∀ size dur, Seg.seg size dur ∈ (s :: rest) → 0 < dur := by
+        intro size dur hm
+        rcases Nat.eq_zero_or_pos dur with h0 | h0
+        · subst h0; exact absurd ⟨size, hm⟩ hno
+        · exact h0
+      by_cases h0 : du = 0
+      · simp only [h0, ↓reduceIte]
+        refine ⟨fun _ => Or.inr ?_, fun _ => ⟨.divideByZero, trivial⟩⟩
+        intro size dur hm
+        have := totalDur_pos_of_mem _ hpos hm
+        omega
+      · simp only [h0, ↓reduceIte]
+        constructor
+        · rintro ⟨e, he⟩; cases he
+        · rintro (hz | hnone)
+          · exact absurd hz hno
+          · exfalso
+            have : 0 < totalDur (s :: rest) := by omega
+            obtain ⟨a, b, hm⟩ := exists_seg_of_totalDur_pos _ this
+            exact hnone a b hm
 
 end Hls.MvGen
